@@ -19,11 +19,11 @@ import (
 )
 
 const (
-	minMargin   = 1500 * time.Millisecond // thinner recorded margins are dropped, not judged
-	dueSlack    = 6 * time.Second
-	lateSlack   = 6 * time.Second
-	postStop    = 1500 * time.Millisecond
-	afterAccept = 2500 * time.Millisecond // the same template keeps being offered after success
+	minMargin    = 1500 * time.Millisecond // thinner recorded margins are dropped, not judged
+	dueSlack     = 6 * time.Second
+	lateSlack    = 6 * time.Second
+	postStop     = 1500 * time.Millisecond
+	afterAccept  = 2500 * time.Millisecond // the same template keeps being offered after success
 	stopWatchdog = 45 * time.Second
 )
 
